@@ -287,6 +287,7 @@ RULES = [
     ("C06-R1", "the ordered buffer loses no row unless a limit is exceeded [shared with C06]", lambda ctx: __import__("c06").r1(ctx)),
     ("X-PHASES", "clause order and phase flags of Parser::parse; WHERE shorthand window [shared]", lambda ctx: __import__("extra").parser_phases(ctx)),
     ("X-BUFFER", "buffering predicates (ordered or aggregate) and recursive expression predicates [shared]", lambda ctx: __import__("extra").buffering_predicates(ctx)),
+    ("C11-R6", "clause keywords (order, by, asc, desc, ..) are keywords in every position [shared with C11]", lambda ctx: __import__("extra2").keyword_arm_guards(ctx)),
 ]
 
 EXPLANATION = (
